@@ -193,6 +193,9 @@ class FuncInfo:
                     if isinstance(tg, (ast.Tuple, ast.List)) and not any(isinstance(e, ast.Starred) for e in tg.elts):
                         self.sites.append(RSite(f, tg, "ValueError", "unpack",
                                                 text=unparse(tg) + " = " + (unparse(val) if val is not None else "<element>")))
+            elif isinstance(n, ast.Attribute) and isinstance(n.ctx, ast.Load) and isinstance(n.value, ast.Name) \
+                    and n.value.id in self.maybe_none():
+                self.sites.append(RSite(f, n, "AttributeError", "none-deref"))
             # generator consumption
             it = None
             if isinstance(n, (ast.For, ast.comprehension)):
@@ -206,6 +209,60 @@ class FuncInfo:
                 gens = self.esc.generators_of(f, it)
                 if gens:
                     self.consumes.append((n, gens))
+
+    def maybe_none(self):
+        """local names that may hold None by a source inside this function (or a literal None argument):
+        x = None; x = f(...) with f returning None on some path; x = c[...] / c.pop() with None inserted into c here;
+        parameters that receive a literal None at some call site"""
+        if hasattr(self, "_mn"):
+            return self._mn
+        f = self.f
+        out = set()
+        self._mn = out
+        optional = self.esc.optional_returning()
+        # parameters receiving a literal None
+        for p in f.params:
+            if p in self.esc.none_params().get(f.qual, ()):
+                out.add(p)
+        assigns = [n for n in own_nodes(f.node) if isinstance(n, ast.Assign)]
+        conts = set()
+        changed = True
+        while changed:
+            changed = False
+            for n in own_nodes(f.node):
+                # containers receiving a maybe-None value
+                if isinstance(n, ast.Call) and isinstance(n.func, ast.Attribute) and n.func.attr in ("append", "appendleft", "add", "insert") \
+                        and isinstance(n.func.value, ast.Name) and n.args:
+                    a = n.args[-1]
+                    if (isinstance(a, ast.Constant) and a.value is None) or (isinstance(a, ast.Name) and a.id in out):
+                        if n.func.value.id not in conts:
+                            conts.add(n.func.value.id)
+                            changed = True
+            for n in assigns:
+                if len(n.targets) != 1 or not isinstance(n.targets[0], ast.Name):
+                    continue
+                nm = n.targets[0].id
+                v = n.value
+                src = False
+                if isinstance(v, ast.Constant) and v.value is None:
+                    src = True
+                elif isinstance(v, ast.Name) and v.id in out:
+                    src = True
+                elif isinstance(v, ast.Call):
+                    site = {id(s.node): s for s in self.esc.ctx.cg.sites(f, self.consts)}.get(id(v))
+                    if site is not None and any(g.qual in optional for g in site.callees):
+                        src = True
+                    if isinstance(v.func, ast.Attribute) and v.func.attr in ("pop", "popleft", "get") and isinstance(v.func.value, ast.Name) \
+                            and v.func.value.id in conts:
+                        src = True
+                elif isinstance(v, ast.Subscript) and isinstance(v.value, ast.Name) and v.value.id in conts:
+                    src = True
+                elif isinstance(v, ast.IfExp) and any(isinstance(x, ast.Constant) and x.value is None for x in (v.body, v.orelse)):
+                    src = True
+                if src and nm not in out:
+                    out.add(nm)
+                    changed = True
+        return out
 
     def _enclosing_handler(self, node):
         cur = node
@@ -246,6 +303,40 @@ class Escape:
             self.infos[key] = FuncInfo(self, ctx.db.funcs[q], dict(cs))
         self.quals = sorted({q for q, _ in self.order})
         self._escapes = None
+
+    def optional_returning(self):
+        """package functions that return None on some path and a value on another"""
+        if not hasattr(self, "_opt"):
+            out = set()
+            for q in self.quals if hasattr(self, "quals") else []:
+                pass
+            for g in self.ctx.db.funcs.values():
+                rets = [r for r in own_nodes(g.node) if isinstance(r, ast.Return)]
+                has_val = any(r.value is not None and not (isinstance(r.value, ast.Constant) and r.value.value is None) for r in rets)
+                has_none = any(r.value is None or (isinstance(r.value, ast.Constant) and r.value.value is None) for r in rets)
+                if has_val and has_none and not g.is_generator:
+                    out.add(g.qual)
+            self._opt = out
+        return self._opt
+
+    def none_params(self):
+        """func qual -> parameters that receive a literal None at some call site of the package"""
+        if not hasattr(self, "_np"):
+            out = {}
+            for g in self.ctx.db.funcs.values():
+                for s in self.ctx.cg.sites(g):
+                    if not isinstance(s.node, ast.Call):
+                        continue
+                    for h in s.callees:
+                        pos = h.posparams[1:] if (h.is_method or h.name == "__init__") else h.posparams
+                        for i, a in enumerate(s.node.args):
+                            if isinstance(a, ast.Constant) and a.value is None and i < len(pos):
+                                out.setdefault(h.qual, set()).add(pos[i])
+                        for k in s.node.keywords:
+                            if k.arg and isinstance(k.value, ast.Constant) and k.value.value is None:
+                                out.setdefault(h.qual, set()).add(k.arg)
+            self._np = out
+        return self._np
 
     def ancestors(self, exc):
         if exc not in self._anc:
